@@ -75,7 +75,7 @@ def setup(E, shape):
                 return core.SR(core.zexpr(v), bad=b.e)
             return float("nan") if b else v
 
-    user, spec = common.make_problem(E, vk, ck, fmt=shape.get("fmt", "coo"), faults=faults)
+    user, spec = common.make_problem(E, vk, ck, fmt=shape.get("fmt", "coo"), faults=faults, policy=shape.get("policy_cb", "fresh"))
     clock = boot.Clock(E)
     boot.mod("timer").time = clock
     spy = TimerSpy(boot.mod("timer").Timer)
@@ -111,8 +111,9 @@ def setup(E, shape):
         obj_lower_limit=obj_lower,
         **kw,
     )
+    owned_snap = common.snapshot([("user.var_lb", user.var_lb), ("user.var_ub", user.var_ub), ("user.cons_lb", user.cons_lb), ("user.cons_ub", user.cons_ub)])
     solver = S.Solver(user, params)
-    ctx = types.SimpleNamespace(E=E, shape=shape, K=K, pol=pol, user=user, spec=spec, clock=clock, spy=spy, params=params, solver=solver, lim=lim, tl=tl, trials=[], cbs=[], rhos_in_cb=[])
+    ctx = types.SimpleNamespace(owned_snap=owned_snap, E=E, shape=shape, K=K, pol=pol, user=user, spec=spec, clock=clock, spy=spy, params=params, solver=solver, lim=lim, tl=tl, trials=[], cbs=[], rhos_in_cb=[])
     prob = solver.problem
     lb, ub = items(prob.var_lb), items(prob.var_ub)
     ctx.lb, ctx.ub = lb, ub
@@ -205,7 +206,7 @@ def internal_oracle(ctx, it):
         if i in slack_pos:
             ci = ci - s[slack_pos.index(i)]
         c.append(ci)
-    J = [[E.uf(f"J{i}_{j}", *xu) for j in range(n)] + [(-1.0 if (i in slack_pos and slack_pos.index(i) == q) else 0.0) for q in range(len(slack_pos))] for i in range(m)]
+    J = [[spec["Jf"](i, j, xu) for j in range(n)] + [(-1.0 if (i in slack_pos and slack_pos.index(i) == q) else 0.0) for q in range(len(slack_pos))] for i in range(m)]
     g = [E.uf(f"g{j}", *xu) for j in range(n)] + [0.0] * len(slack_pos)
     f = E.uf("f", *xu)
     return dict(x=x, y=y, c=c, J=J, g=g, f=f, N=n + len(slack_pos))
@@ -345,6 +346,11 @@ def check(ctx):
     else:
         E.prove(res.path is None, "C12.no_path_unless_requested")
     E.prove(res.dist_factor >= 1.0, "C12.dist_factor_at_least_one")
+    # caller-owned data after a whole solve (C11)
+    E.prove(common.eq_all(items(ctx.x0_arr), ctx.x0), "C11.solve_leaves_the_start_point_unchanged")
+    if ctx.spec["handed"]:
+        common.check_snapshots(E, ctx.spec["handed"], "C11.solve_leaves_cached_callback_results_unchanged")
+    common.check_snapshots(E, ctx.owned_snap, "C11.solve_leaves_bound_arrays_unchanged")
     # start iterate is the transformed x0 (slack = clip(c(x0), l, u))
     sx = items(ctx.start_iterate.x)
     E.prove(common.eq_all(sx[:n], ctx.x0), "C12.first_step_starts_from_x0")
@@ -388,7 +394,7 @@ def loop_tasks(combos, K, opts=None):
     out = []
     for c in combos:
         sh = dict(K=K, policy=c.get("policy", "DualNorm"), vars=c.get("vars", ["boxed"]), cons=c.get("cons", []))
-        for k in ("limit", "time_limit", "collect_path", "fmt", "deriv_check", "start_faults"):
+        for k in ("limit", "time_limit", "collect_path", "fmt", "deriv_check", "start_faults", "policy_cb"):
             if k in c:
                 sh[k] = c[k]
         o = dict(mulmode="uf", timeout_ms=20000)
